@@ -608,6 +608,24 @@ def conc_extra(pid, tier, seed):
     for i in range(1 if quick else 6):
         jobs.append((["conc-stress", "--kind", kind, "--count", 30 if quick else 100, "--rounds", 10 if quick else 40, "--seed", seed * 10 + i], "MemcLin",
                      "stress-%d.ndjson" % i, "OS-thread stress %s #%d" % (kind, i), None))
+    extra = {}
+    if pid == "C08":
+        # the concurrent model with flush actions: linearizable AND equivalent to a serial run of the sequential model;
+        # without the stripe locks around flush the second must fail (a flush inside an append)
+        r = run.add_mc("MC_Conc", "MC_Conc_C08_2", workers=8)
+        r2 = tlc_mc("MC_Conc", "MC_Conc_noflushlock", workers=6, timeout=600)
+        if r2["ok"] or r2["violated"] != "SerialEquiv":
+            raise ToolError("MemcConc without the stripe locks around flush should violate SerialEquiv (got %s)" % r2["violated"])
+        extra["mc_runs"] = [{"cfg": r["cfg"], "distinct": r["distinct"], "generated": r["generated"], "wall_s": round(r["wall_s"], 1)}]
+        extra["sensitivity"] = "MemcConc with FlushLock = FALSE violates SerialEquiv (and not Linearizable), as expected"
+        # spec -> code: TLC schedules of the flush programs replayed step for step
+        g = tlc_mc("MC_Conc", "GEN_Conc08", workers=1, timeout=600, name="GEN_Conc_" + pid,
+                   extra=["-simulate", "num=%d" % (200 if quick else 2000), "-depth", "40", "-seed", str(seed)])
+        scheds = sorted(set(json.loads(l.strip())[len("SCHED "):] for l in open(g["out_file"]) if l.startswith('"SCHED ')))
+        sp = os.path.join(run.dir, "scheds.json")
+        open(sp, "w").write("\n".join(scheds) + "\n")
+        jobs.append((["conc-replay", "--scheds", sp], "MemcLin", "replay-tlc.ndjson", "TLC schedules replayed", None))
+        extra["tlc_schedules_replayed"] = len(scheds)
 
     def one(j):
         return job_trace(j[0], j[1], j[2], run.dir, j[3], lin=True)
@@ -622,9 +640,11 @@ def conc_extra(pid, tier, seed):
         bad.append(v)
     if not bad and not run.cov.get("history.linearizable", 0):
         raise ToolError("vacuous concurrent part for %s: no history was accepted" % pid)
-    return len(bad), {"concurrent": {"histories": run.traces, "schedules_executed": run.extra.get("schedules_executed", 0),
-                                     "programs_exhausted": run.extra.get("programs_exhausted", 0),
-                                     "accepted": run.cov.get("history.linearizable", 0)}}
+    if run.drift:
+        extra["model_drift"] = run.drift
+    return len(bad), {"concurrent": dict({"histories": run.traces, "schedules_executed": run.extra.get("schedules_executed", 0),
+                                          "programs_exhausted": run.extra.get("programs_exhausted", 0),
+                                          "accepted": run.cov.get("history.linearizable", 0)}, **extra)}
 
 
 def conc_expiry_extra(pid, tier, seed):
